@@ -655,7 +655,60 @@ func genParserOSAPLong(seed int64, n int, tier string) []Script {
 	return out
 }
 
+// genParserGSAPBig: GSAP on buffers of several KiB (binary texts with long
+// repeats: the suffix sort takes its rank-sort fall-backs), judged by
+// counter-witnesses (C12.no_longer_match) instead of the cubic oracle.
+func genParserGSAPBig(seed int64, n int, tier string) []Script {
+	r := rand.New(rand.NewSource(seed))
+	var out []Script
+	for i := 0; i < n; i++ {
+		total := pickInt(r, 3000, 5000, 8000, 12000)
+		class := i % 3
+		if class == 0 {
+			// the rank sort falls back to its heap sort on about every
+			// second random binary text of this size
+			total = pickInt(r, 16000, 24000, 32000)
+		}
+		x := uint64(r.Int63()) | 1
+		data := make([]byte, total)
+		for j := range data {
+			x ^= x << 13
+			x ^= x >> 7
+			x ^= x << 17
+			data[j] = byte('a' + x>>33&1)
+		}
+		switch class {
+		case 1: // long repeats copied over the random text
+			for k := 0; k < 6; k++ {
+				src, l := r.Intn(total/2), 50+r.Intn(400)
+				dst := total/2 + r.Intn(total/2-l)
+				copy(data[dst:dst+l], data[src:src+l])
+			}
+		case 2: // Fibonacci word with sparse noise
+			a, b := []byte("a"), []byte("ab")
+			for len(b) < total {
+				a, b = b, append(append([]byte{}, b...), a...)
+			}
+			copy(data, b[:total])
+			for k := 0; k < total/500; k++ {
+				data[r.Intn(total)] ^= 3
+			}
+		}
+		B := total + r.Intn(100)
+		cfg := map[string]any{"kind": "GSAP", "BufferSize": B, "ShrinkSize": B / 2, "WindowSize": pickInt(r, B, 2*B, 0),
+			"BlockSize": pickInt(r, 2048, 4096, 8192, 0), "MinMatchLen": pickInt(r, 2, 3, 4)}
+		ops := []map[string]any{{"op": "write", "p": B2(data)}}
+		for k := 0; k < total/2048+2; k++ {
+			ops = append(ops, map[string]any{"op": "parse", "flags": 0, "cw": true})
+		}
+		out = append(out, Script{Tid: "parser-gsapbig-" + itoa(seed) + "-" + itoa(int64(i)), Comp: "parser", Cfg: cfg,
+			Ops: ops, Tags: []string{"go", "GSAP", "bigbuffer", "class" + itoa(int64(class))}})
+	}
+	return out
+}
+
 func init() {
+	generators["parser-gsap-big"] = genParserGSAPBig
 	generators["parser-osap-long"] = genParserOSAPLong
 	generators["parser-collide"] = genParserCollide
 	generators["parser-ntlfuture"] = genParserNTLFuture
